@@ -4,6 +4,8 @@ pub mod evidence;
 pub mod findings;
 pub mod model;
 pub mod rng;
+pub mod server;
+pub mod sock;
 
 use evidence::{Evidence, Tier};
 use findings::Findings;
